@@ -553,20 +553,65 @@ func init() {
 				r.bad("a response is dropped only when no handler owns it", "?", "(*serverConn).dropResponse no longer resolves")
 			}
 			if fd := p.decl("(*serverConn).dispatchHandler"); fd != nil {
-				okH := false
+				okH, nStop := true, 0
 				ast.Inspect(fd.Body, func(n ast.Node) bool {
 					cc, ok := n.(*ast.CommClause)
 					if !ok || cc.Comm == nil || squash(p.text(cc.Comm)) != "<-sc.handlerStop" {
 						return true
 					}
-					for _, s := range cc.Body {
-						if squash(p.text(s)) == "_=ctx.Response.CloseBodyStream()" {
-							okH = true
-						}
+					// every place the handler finds the loop gone lets go of a body: its own, or the ones left in the channel
+					nStop++
+					if !hasStmt(p, cc.Body, "_=ctx.Response.CloseBodyStream()") && !hasStmt(p, cc.Body, "sc.dropReported()") {
+						okH = false
 					}
 					return true
 				})
+				okH = okH && nStop > 0
 				r.check(okH, "a handler that finds the loop gone closes its response's body", p.pos(fd.Pos()), "case <-sc.handlerStop: ctx.Response.CloseBodyStream()", "a handler that finishes after the stream loop has gone drops its response with the body stream still open")
+				// handlerDone is buffered, so once the loop is gone a report and the stop are both possible and select picks at random:
+				// the stop is looked at first, alone; and after a report that went in, again, emptying the channel if the loop stopped meanwhile
+				var sels []*ast.SelectStmt
+				ast.Inspect(fd.Body, func(n ast.Node) bool {
+					if sel, ok := n.(*ast.SelectStmt); ok {
+						sels = append(sels, sel)
+					}
+					return true
+				})
+				arms := func(sel *ast.SelectStmt) (out []string) {
+					for _, c := range sel.Body.List {
+						cc := c.(*ast.CommClause)
+						if cc.Comm == nil {
+							out = append(out, "default")
+						} else {
+							out = append(out, squash(p.text(cc.Comm)))
+						}
+					}
+					return
+				}
+				first, report, recheck := -1, -1, -1
+				for i, sel := range sels {
+					a := strings.Join(arms(sel), "|")
+					switch a {
+					case "<-sc.handlerStop|default":
+						if first < 0 && report < 0 {
+							// its stop arm ends the deferred function
+							cc := sel.Body.List[0].(*ast.CommClause)
+							if len(cc.Body) > 0 {
+								if _, isRet := cc.Body[len(cc.Body)-1].(*ast.ReturnStmt); isRet {
+									first = i
+								}
+							}
+						} else if report >= 0 && sel.Pos() > sels[report].Pos() && sel.End() < sels[report].End() {
+							cc := sel.Body.List[0].(*ast.CommClause)
+							if hasStmt(p, cc.Body, "sc.dropReported()") {
+								recheck = i
+							}
+						}
+					case "sc.handlerDone<-strm|<-sc.handlerStop":
+						report = i
+					}
+				}
+				r.check(first >= 0 && report > first && recheck > report, "a finished handler looks for the stop before it reports, and again after", p.pos(fd.Pos()), "select { <-handlerStop: close; return; default }; select { handlerDone <- strm: select { <-handlerStop: dropReported(); default }; <-handlerStop: close }", "the handler's report is again a single select between a buffered send and the stop: after teardown both are ready, select picks at random, and about half of the late handlers leave their response, body stream open, in a channel nobody reads")
 			}
 		},
 	})
